@@ -53,7 +53,7 @@ def dTC (w : WireSt) (t : TC) : WireSt × String :=
   let (w', s) := dSig w t.sig
   (w', s!"tc(v={t.view},sig={s})")
 
-def sortByKey {α} (l : List (Nat × α)) : List (Nat × α) :=
+def sortByKeyW {α} (l : List (Nat × α)) : List (Nat × α) :=
   l.foldr (fun p acc =>
     let rec ins : List (Nat × α) → List (Nat × α)
       | [] => [p]
@@ -62,7 +62,7 @@ def sortByKey {α} (l : List (Nat × α)) : List (Nat × α) :=
 
 def dAgg (w : WireSt) (a : AggQC) : WireSt × String :=
   let (w1, s) := dSig w a.sig
-  let (w2, parts) := (sortByKey a.qcs).foldl (fun (acc : WireSt × List String) p =>
+  let (w2, parts) := (sortByKeyW a.qcs).foldl (fun (acc : WireSt × List String) p =>
     let (w', d) := dQC acc.1 p.2
     (w', acc.2 ++ [s!"{p.1}:{d}"])) (w1, [])
   (w2, s!"agg(v={a.view},sig={s},qcs=" ++ "{" ++ joinWith "," parts ++ "})")
